@@ -323,6 +323,25 @@ func runC06(c *Ctx) {
 	})
 	c.Parallel("mixed", ref.NearestEven, func(sh *mon.Shard, r *gen.RNG) {
 		j := &textJudge{ctx: c, sh: sh}
+		// deterministic: d*10^k (d = 1..9, every k that fits) at the largest and the smallest exponent, both signs -
+		// the largest/smallest powers of ten and their cohorts (10^6145 = 10^34 e6111 ... 1e-6176)
+		cnt := 0
+		for k := 0; k <= 34; k++ {
+			for dgt := int64(1); dgt <= 9; dgt++ {
+				coef := new(big.Int).Mul(big.NewInt(dgt), ref.Pow10(k))
+				if coef.Cmp(ref.Cmax) > 0 {
+					continue
+				}
+				for _, e := range []int{ref.MaxExp, ref.MaxExp - 1, ref.MinExp, ref.MinExp + 1} {
+					cnt++
+					if cnt%c.Shards != sh.ID {
+						continue
+					}
+					j.judge(ref.Encode(cnt%2 == 0, coef, e), "")
+					j.judge(ref.Encode(cnt%2 == 1, coef, e), "")
+				}
+			}
+		}
 		n := c.N(12000, 150000)
 		for i := 0; i < n; i++ {
 			switch i % 4 {
